@@ -1,4 +1,356 @@
-import SdbModel.Model.Table
-/-! # C09 — theorems under construction (see DESIGN.md section 4) -/
+import SdbModel.Lemmas.Table
+
+/-!
+# C09 — table revisions: monotone, assigned in strictly increasing order, distinct per object
+
+> A table's revision is constant within a snapshot and never decreases from one committed state
+> to the next; every successful insert, modify or delete is assigned a revision strictly greater
+> than every revision assigned before in that table, and the table revision equals the revision
+> of its latest successful write, while no-op deletes, rejected compare-and-swap/delete
+> operations and aborted transactions leave it unchanged.  Live objects have pairwise distinct
+> revisions, the revision reported with an object is the one assigned by the write that produced
+> that version, and querying by revision yields objects in ascending revision order.
+
+Theorems over `Model.Table` (`Tbl.modify`, `Tbl.delete`, `Tbl.deleteAll`, `DB.beginW/commit/abort`)
+for EVERY table satisfying the invariant `Tbl.TInv` of `Lemmas/Table.lean` and every argument.
+`TInv` holds for the empty table, is preserved by every operation and therefore holds in every
+reachable state (`C09_inv_reachable`, `C09_db_inv_reachable`; the preservation theorems are also
+listed under C03).  The step-level facts (`+1` exactly on success, unchanged otherwise) need no
+invariant at all.  The only side condition is that the counters stay below `2^64` (Go `uint64`),
+under which `revKey` (8 bytes big-endian) is injective and monotone.
+
+A snapshot is a value `List TableS` (`db.root`) in this model, so "constant within a snapshot" is
+the statement that no operation of an open write transaction touches `db.root`
+(`C09_snapshot_untouched_by_open_txn`).
+-/
 namespace Sdb
+open Tbl Tbl.OMap
+
+/-! ## the invariant in every reachable state -/
+
+theorem C09_inv_reachable (t : TableS) (inv : TInv t) (ops : List Op) (hb : (run t ops).rev < 2 ^ 64) :
+    TInv (run t ops) := inv.run ops hb
+
+theorem C09_db_inv_reachable (db : DB) (h : Reach db) : DInv db := h.inv
+
+/-! ## one operation: `+1` exactly on success, unchanged otherwise -/
+
+/-- a successful Insert / Modify / CompareAndSwap raises the table revision by exactly one, and the
+    version it stored (read back with Get) carries exactly the new table revision -/
+theorem C09_modify_assigns_next_revision (t : TableS) (guard : Nat) (o : Obj) (merge : Bool)
+    (h : (modify t guard o merge).2.2 = .ok) :
+    (modify t guard o merge).1.rev = t.rev + 1 ∧
+    ∃ x, qGet (modify t guard o merge).1 .id o.id 0 = some x ∧ x.rev = (modify t guard o merge).1.rev := by
+  simp only [qGet]
+  rcases modify_cases t guard o merge with ⟨_, h'⟩ | ⟨_, _, _, h'⟩ | ⟨_, _, oo, _, _, h'⟩ | ⟨_, _, t', h', hm⟩
+  · rw [h'] at h; simp at h
+  · rw [h'] at h; simp at h
+  · rw [h'] at h; simp at h
+  · rw [h']
+    refine ⟨hm.rev, newObj t o merge, ?_, ?_⟩
+    · simp only; rw [hm.primary, get_insert_self]
+    · simp [hm.rev]
+
+/-- a rejected modify (table not held, object not found, revision mismatch) leaves the revision
+    — indeed the whole table — unchanged -/
+theorem C09_rejected_modify_keeps_revision (t : TableS) (guard : Nat) (o : Obj) (merge : Bool)
+    (h : (modify t guard o merge).2.2 ≠ .ok) :
+    (modify t guard o merge).1 = t ∧ (modify t guard o merge).1.rev = t.rev := by
+  rcases modify_rev_cases t guard o merge with ⟨h', _⟩ | ⟨_, h'⟩
+  · exact absurd h' h
+  · exact ⟨h', by rw [h']⟩
+
+/-- a Delete / CompareAndDelete that removes an object raises the table revision by exactly one;
+    if delete trackers are registered the graveyard copy of the object carries exactly the new
+    table revision (in both graveyard indexes) -/
+theorem C09_delete_assigns_next_revision (t : TableS) (guard : Nat) (id : Key) (old : Obj)
+    (hold : qGet t .id id 0 = some old) (h : (delete t guard id).2.2 = .ok) :
+    (delete t guard id).1.rev = t.rev + 1 ∧
+    (t.trackers ≠ [] →
+      (delete t guard id).1.grave.get id = some { old with rev := (delete t guard id).1.rev } ∧
+      (delete t guard id).1.graveRev.get (revKey (delete t guard id).1.rev)
+        = some { old with rev := (delete t guard id).1.rev }) := by
+  simp only [qGet] at hold
+  rcases delete_cases t guard id with ⟨_, h'⟩ | ⟨_, hn, h'⟩ | ⟨_, _, old', _, _, h'⟩ | ⟨_, old', ho', _, t', h', hd⟩
+  · rw [h'] at h; simp at h
+  · rw [hn] at hold; simp at hold
+  · rw [h'] at h; simp at h
+  · rw [hold] at ho'; simp only [Option.some.injEq] at ho'; subst ho'
+    rw [h']
+    refine ⟨hd.rev, ?_⟩
+    intro ht
+    have ⟨g1, g2⟩ := hd.graveTracker ht
+    simp only
+    rw [g1, g2, hd.rev, get_insert_self, get_insert_self]
+    exact ⟨rfl, rfl⟩
+
+/-- a no-op delete (object absent) leaves the table, hence its revision, unchanged -/
+theorem C09_noop_delete_keeps_revision (t : TableS) (guard : Nat) (id : Key)
+    (hn : qGet t .id id 0 = none) : (delete t guard id).1 = t := by
+  simp only [qGet] at hn
+  rcases delete_cases t guard id with ⟨_, h'⟩ | ⟨_, _, h'⟩ | ⟨_, _, old', _, _, h'⟩ | ⟨_, old', ho', _, t', h', hd⟩
+  · rw [h']
+  · rw [h']
+  · rw [h']
+  · rw [hn] at ho'; simp at ho'
+
+/-- a rejected delete (table not held, revision mismatch) leaves the table, hence its revision, unchanged -/
+theorem C09_rejected_delete_keeps_revision (t : TableS) (guard : Nat) (id : Key)
+    (h : (delete t guard id).2.2 ≠ .ok) : (delete t guard id).1 = t := by
+  rcases delete_cases t guard id with ⟨_, h'⟩ | ⟨_, _, h'⟩ | ⟨_, _, old', _, _, h'⟩ | ⟨_, old', ho', _, t', h', hd⟩
+  · rw [h']
+  · rw [h']
+  · rw [h']
+  · rw [h'] at h; simp at h
+
+/-- DeleteAll on a held table assigns one revision per object (the table revision grows by the
+    number of objects); on a table that is not held it changes nothing -/
+theorem C09_deleteAll_revision (t : TableS) (inv : TInv t) :
+    (t.locked = true → (deleteAll t).1.rev = t.rev + numObjects t) ∧
+    (t.locked = false → (deleteAll t).1 = t) := by
+  constructor
+  · intro hl
+    rw [deleteAll_rev t hl inv.sortedP, inv.numObjects]
+    simp [qAll]
+  · exact deleteAll_unlocked_eq t
+
+/-- no operation ever lowers the table revision -/
+theorem C09_table_revision_never_decreases (t : TableS) (guard : Nat) (o : Obj) (merge : Bool) (id : Key) :
+    t.rev ≤ (modify t guard o merge).1.rev ∧ t.rev ≤ (delete t guard id).1.rev ∧ t.rev ≤ (deleteAll t).1.rev :=
+  ⟨modify_rev_mono t guard o merge, (delete_rev_le t guard id).1, deleteAll_rev_mono t⟩
+
+/-! ## live objects: revisions bounded by the table revision and pairwise distinct -/
+
+/-- every live object has a positive revision that is at most the table revision -/
+theorem C09_live_revision_le_table_revision (t : TableS) (inv : TInv t) (x : Obj) (hx : x ∈ qAll t) :
+    0 < x.rev ∧ x.rev ≤ t.rev := by
+  have := (inv.mem_qAll x).mp hx
+  exact ⟨inv.revPos _ _ this, inv.revLe _ _ this⟩
+
+/-- live objects have pairwise distinct revisions -/
+theorem C09_live_revisions_distinct (t : TableS) (inv : TInv t) (x y : Obj) (hx : x ∈ qAll t) (hy : y ∈ qAll t)
+    (h : x.rev = y.rev) : x = y := by
+  have h1 := (inv.mem_qAll x).mp hx
+  have h2 := (inv.mem_qAll y).mp hy
+  have := inv.revInj _ _ _ _ h1 h2 h
+  rw [this, h2] at h1
+  simpa using h1.symm
+
+/-- the revision assigned by a successful write is strictly greater than the revision of every
+    object that was live before it (and than the previous table revision) -/
+theorem C09_new_revision_above_all_live (t : TableS) (inv : TInv t) (guard : Nat) (o : Obj) (merge : Bool)
+    (h : (modify t guard o merge).2.2 = .ok) (x : Obj) (hx : x ∈ qAll t) :
+    x.rev < (modify t guard o merge).1.rev ∧ t.rev < (modify t guard o merge).1.rev := by
+  have := (C09_live_revision_le_table_revision t inv x hx).2
+  have := (C09_modify_assigns_next_revision t guard o merge h).1
+  omega
+
+/-! ## the revision reported with an object is the one assigned by the write that produced it -/
+
+/-- the id an operation addresses -/
+def Tbl.Op.id : Op → Key
+  | .modify _ o _ => o.id
+  | .delete _ i => i
+
+/-- operations on other ids leave the stored version of `k` — object and revision — untouched -/
+private theorem apply_get_other (t : TableS) (inv : TInv t) (op : Op) (k : Key) (hk : op.id ≠ k) :
+    (op.apply t).1.primary.get k = t.primary.get k := by
+  cases op with
+  | modify g o m =>
+    simp only [Op.apply]
+    simp only [Op.id] at hk
+    rcases modify_cases t g o m with ⟨_, h'⟩ | ⟨_, _, _, h'⟩ | ⟨_, _, oo, _, _, h'⟩ | ⟨_, _, t', h', hm⟩
+    · rw [h']
+    · rw [h']
+    · rw [h']
+    · rw [h']; simp only; rw [hm.primary, get_insert_other _ _ _ _ (Ne.symm hk)]
+  | delete g i =>
+    simp only [Op.apply]
+    simp only [Op.id] at hk
+    rcases delete_cases t g i with ⟨_, h'⟩ | ⟨_, _, h'⟩ | ⟨_, _, old', _, _, h'⟩ | ⟨_, old', ho', _, t', h', hd⟩
+    · rw [h']
+    · rw [h']
+    · rw [h']
+    · rw [h']; simp only; rw [hd.primary, get_erase_other _ inv.sortedP _ _ (Ne.symm hk)]
+
+/-- **the revision reported with an object is the one assigned by the write that produced that
+    version**: a successful write stores its version with the revision it was assigned
+    (`C09_modify_assigns_next_revision`), and whatever is done afterwards to other ids, Get keeps
+    returning that same version with that same revision -/
+theorem C09_reported_revision_is_write_revision (t : TableS) (inv : TInv t) (guard : Nat) (o : Obj) (merge : Bool)
+    (h : (modify t guard o merge).2.2 = .ok) (ops : List Op) (hother : ∀ op ∈ ops, op.id ≠ o.id)
+    (hb : (run (modify t guard o merge).1 ops).rev < 2 ^ 64) :
+    ∃ x, qGet (run (modify t guard o merge).1 ops) .id o.id 0 = some x ∧ x.rev = t.rev + 1 ∧
+      x = newObj t o merge := by
+  have key : ∀ (ops : List Op) (s : TableS), TInv s → (∀ op ∈ ops, op.id ≠ o.id) → (run s ops).rev < 2 ^ 64 →
+      (run s ops).primary.get o.id = s.primary.get o.id := by
+    intro ops
+    induction ops with
+    | nil => intro s _ _ _; rfl
+    | cons op ops ih =>
+      intro s invs hoth hbs
+      simp only [run] at hbs ⊢
+      have hm := run_rev_mono (op.apply s).1 ops
+      have invs' := Op.apply_preserves invs op (by omega)
+      rw [ih _ invs' (fun op' h' => hoth op' (List.mem_cons_of_mem _ h')) hbs]
+      exact apply_get_other s invs op o.id (hoth op (List.mem_cons_self ..))
+  have hb1 : (modify t guard o merge).1.rev < 2 ^ 64 := by
+    have := run_rev_mono (modify t guard o merge).1 ops; omega
+  have inv1 := inv.modify_preserves guard o merge hb1
+  refine ⟨newObj t o merge, ?_, by simp, rfl⟩
+  simp only [qGet]
+  rw [key ops _ inv1 hother hb]
+  rcases modify_cases t guard o merge with ⟨_, h'⟩ | ⟨_, _, _, h'⟩ | ⟨_, _, oo, _, _, h'⟩ | ⟨_, _, t', h', hm⟩
+  · rw [h'] at h; simp at h
+  · rw [h'] at h; simp at h
+  · rw [h'] at h; simp at h
+  · rw [h']; simp only; rw [hm.primary, get_insert_self]
+
+/-- the revision index agrees with the primary index: looking a live object up by its
+    revision returns that object, and nothing else is found by revision -/
+theorem C09_get_by_revision (t : TableS) (inv : TInv t) (r : Nat) (hr : r < 2 ^ 64) (x : Obj) :
+    qGet t .rev (revKey r) 0 = some x ↔ x ∈ qAll t ∧ x.rev = r := by
+  simp only [qGet]
+  rw [inv.revIdxChar, inv.mem_qAll]
+  constructor
+  · rintro ⟨h1, h2⟩
+    have := inv.revLe _ _ h1
+    have := inv.bound
+    exact ⟨h1, (revKey_inj _ _ hr (by omega) h2).symm⟩
+  · rintro ⟨h1, h2⟩
+    exact ⟨h1, by rw [h2]⟩
+
+/-! ## querying by revision -/
+
+/-- **ByRevision(r) / LowerBound on the revision index yields strictly ascending revisions**, and
+    exactly the live objects with revision ≥ r -/
+theorem C09_query_by_revision_ascending (t : TableS) (inv : TInv t) (r : Nat) (hr : r < 2 ^ 64) :
+    ((qLowerBound t .rev (revKey r) 0).map (·.rev)).Pairwise (· < ·) ∧
+    ∀ x, x ∈ qLowerBound t .rev (revKey r) 0 ↔ x ∈ qAll t ∧ r ≤ x.rev := by
+  rw [inv.qLowerBound_rev r hr]
+  constructor
+  · rw [List.pairwise_map]
+    apply List.Pairwise.filter
+    have := inv.revIdx_ascending
+    rw [List.pairwise_map] at this
+    rw [List.pairwise_map]
+    exact this
+  · intro x
+    rw [List.mem_filter, inv.mem_revIdx_objs]
+    simp
+
+/-- the whole revision index lists every live object exactly once, in ascending revision order -/
+theorem C09_revision_index_lists_all (t : TableS) (inv : TInv t) :
+    (∀ x, x ∈ qLowerBound t .rev (revKey 0) 0 ↔ x ∈ qAll t) ∧
+    (qLowerBound t .rev (revKey 0) 0).length = numObjects t := by
+  have h := inv.qLowerBound_rev 0 (by decide)
+  constructor
+  · intro x
+    rw [(C09_query_by_revision_ascending t inv 0 (by decide)).2 x]
+    simp
+  · rw [h, List.filter_eq_self.mpr (by intro a _; simp)]
+    simp [numObjects]
+
+/-! ## sequences of operations -/
+
+/-- **every successful write is assigned a revision strictly greater than every revision assigned
+    before in that table**: along ANY sequence of operations from ANY table state the assigned
+    revisions (read back from the table after each successful write) are strictly increasing,
+    all above the starting table revision and at most the final one -/
+theorem C09_assigned_revisions_strictly_increasing (t : TableS) (ops : List Op) :
+    (assignedRevs t ops).Pairwise (· < ·) ∧
+    ∀ r ∈ assignedRevs t ops, t.rev < r ∧ r ≤ (run t ops).rev := assignedRevs_spec t ops
+
+/-- **the table revision equals the revision of its latest successful write** (and is the
+    starting revision if the sequence wrote nothing) -/
+theorem C09_table_revision_is_latest_assigned (t : TableS) (ops : List Op) :
+    match (assignedRevs t ops).getLast? with
+    | some r => (run t ops).rev = r
+    | none => (run t ops).rev = t.rev := run_rev_eq_last t ops
+
+/-- what "assigned" means for one operation: exactly the next revision, which becomes the table
+    revision, or nothing with the table unchanged -/
+theorem C09_assigned_is_next_or_nothing (t : TableS) (op : Op) :
+    (op.assigned t = some (t.rev + 1) ∧ (op.apply t).1.rev = t.rev + 1) ∨
+    (op.assigned t = none ∧ (op.apply t).1 = t) := op.assigned_cases t
+
+/-! ## snapshots, commit, abort -/
+
+/-- **constant within a snapshot**: operations of the open write transaction (and Abort) never
+    touch the committed tables `db.root` that snapshots read -/
+theorem C09_snapshot_untouched_by_open_txn (db : DB) (ti guard idt : Nat) (o : Obj) (merge : Bool) (id : Key)
+    (lm la : Bool) :
+    (db.step (.modify ti guard o merge)).root = db.root ∧ (db.step (.delete ti guard id)).root = db.root ∧
+    (db.step (.deleteAll ti)).root = db.root ∧ (db.step (.track ti idt)).root = db.root ∧
+    (db.step (.beginW lm la)).root = db.root ∧ (db.step .abort).root = db.root := by
+  refine ⟨?_, ?_, ?_, ?_, ?_, rfl⟩
+  · simp only [DB.step, DB.wModify]; split <;> rfl
+  · simp only [DB.step, DB.wDelete]; split <;> rfl
+  · simp only [DB.step, DB.wDeleteAll]; split <;> rfl
+  · simp only [DB.step, DB.wTrack]; split
+    · rfl
+    · split <;> rfl
+  · simp only [DB.step]; split <;> rfl
+
+/-- **an aborted transaction leaves the committed revision unchanged** -/
+theorem C09_abort_keeps_revision (db : DB) : db.abort.root = db.root := rfl
+
+/-- **never decreases from one committed state to the next**: Commit publishes for every table a
+    revision that is at least the previously committed one -/
+theorem C09_commit_revision_monotone (db : DB) (h : Reach db) (i : Nat) (r r' : TableS)
+    (h1 : db.root[i]? = some r) (h2 : db.commit.root[i]? = some r') : r.rev ≤ r'.rev :=
+  (step_root_rev_mono h.inv .commit).2 i r r' h1 h2
+
+/-- the database after a sequence of operations -/
+def Tbl.DB.steps (db : DB) (ops : List DbOp) : DB := ops.foldl DB.step db
+
+/-- … and so along ANY sequence of database operations (transactions begun, written, committed
+    or aborted): the committed revision of every table is monotone and the set of tables fixed -/
+theorem C09_committed_revision_monotone_over_runs (db : DB) (inv : DInv db) (ops : List DbOp)
+    (hb : ∀ n, (db.steps (ops.take n)).Bounded) :
+    (db.steps ops).root.length = db.root.length ∧
+    ∀ (i : Nat) (r r' : TableS), db.root[i]? = some r → (db.steps ops).root[i]? = some r' → r.rev ≤ r'.rev := by
+  induction ops generalizing db with
+  | nil =>
+    refine ⟨rfl, ?_⟩
+    intro i r r' h1 h2
+    simp only [DB.steps, List.foldl_nil] at h2
+    rw [h1] at h2; simp only [Option.some.injEq] at h2; subst h2; exact Nat.le_refl _
+  | cons op ops ih =>
+    have hb1 : (db.step op).Bounded := by simpa [DB.steps] using hb 1
+    have inv1 := inv.step op hb1
+    have ⟨hl1, hm1⟩ := step_root_rev_mono inv op
+    have ⟨hl2, hm2⟩ := ih (db.step op) inv1 (fun n => by simpa [DB.steps] using hb (n + 1))
+    have e : db.steps (op :: ops) = (db.step op).steps ops := rfl
+    rw [e]
+    refine ⟨by omega, ?_⟩
+    intro i r r' h1 h2
+    have hlt : i < (db.step op).root.length := by
+      rw [hl1]
+      rcases Nat.lt_or_ge i db.root.length with h' | h'
+      · exact h'
+      · rw [List.getElem?_eq_none h'] at h1; simp at h1
+    have hmid : (db.step op).root[i]? = some (db.step op).root[i] := List.getElem?_eq_getElem hlt
+    have := hm1 i r _ h1 hmid
+    have := hm2 i _ r' hmid h2
+    omega
+
+/-! ## non-vacuity -/
+
+private def oA : Obj := { id := [], val := 5, uvar := 0, tags := [], pfxs := [], up := false, ord := 0, rev := 0 }
+private def oB : Obj := { id := [1, 2], val := 7, uvar := 1, tags := [[3]], pfxs := [], up := false, ord := 1, rev := 0 }
+private def t0 : TableS := { locked := true, trackers := [1] }
+private def opsEx : List Op := [.modify 0 oA false, .modify 0 oB false, .delete 5 [], .modify 1 oA true, .delete 0 [1, 2], .delete 0 [7]]
+
+/-- the invariant holds on a concrete run … -/
+example : TInv (run t0 opsEx) := C09_inv_reachable t0 (TInv.empty t0 rfl rfl (by decide)) opsEx (by decide)
+
+/-- … whose assigned revisions are 1, 2, 3, 4 (two of the six operations are rejected / no-ops) -/
+example : assignedRevs t0 opsEx = [1, 2, 3, 4] ∧ (run t0 opsEx).rev = 4 ∧
+    (qAll (run t0 opsEx)).map (·.rev) = [3] := by decide
+
+example : Reach (((newDB.step (.beginW true true)).step (.modify 1 0 oB false)).step .commit) :=
+  Reach.step _ (Reach.step _ (Reach.step _ Reach.init (DB.bounded_of_boundedB _ (by decide)))
+    (DB.bounded_of_boundedB _ (by decide))) (DB.bounded_of_boundedB _ (by decide))
+
 end Sdb
